@@ -61,7 +61,7 @@ pub enum RawExpr {
     // during interpolation.
     Str{s: String, interpolation_slots: Option<Vec<(usize, usize)>>},
 
-    Var{name: String},
+    Var{name: String, loc: Location},
 
     BinaryOp{
         op: BinaryOp,
